@@ -338,6 +338,14 @@ def _dom_histogram(tier, seed):
     specs = [dict(binsize=1.0), dict(binsize=0.5), dict(binsize=0.1), dict(nbin=1), dict(nbin=3),
              dict(binsize=1.0, min=0.5), dict(binsize=0.7, max=2.0), dict(nbin=2, min=0.3, max=2.0),
              dict(binsize=0.5, min=-1.0, max=1.0), dict(nbin=4, max=1.0)]
+    # the same values in other layouts: byte-swapped, single precision, integers, strided
+    extra = []
+    for d in sets[-12:]:
+        d8 = np.asarray(d, dtype="f8")
+        big = np.zeros(d8.size * 2)
+        big[::2] = d8
+        extra += [d8.astype(">f8"), big[::2], np.round(d8).astype(">i4"), np.round(d8 * 4).astype("f4") / 4]
+    sets = sets + extra
     for data in sets:
         for kw in specs:
             d = np.asarray(data, dtype="f8")
